@@ -52,8 +52,11 @@ def ok_spec(s):
     return True
 
 
+_BIAS = [False]  # sub-check gp-finite: small finite spaces driven to exhaustion with NaN metric values (diverged runs)
+
+
 def gen_space(t, finite):
-    n = t.int(1, 3 if finite else 4)
+    n = t.int(1, (2 if _BIAS[0] else 3) if finite else 4)
     names = t.permutation(gd.NAMES)[:n]
     specs = {}
     guard = 0
@@ -64,7 +67,7 @@ def gen_space(t, finite):
         s = gd.gen_domspec(t, kinds=FINITE_KINDS if finite else None, small=finite)
         if not ok_spec(s):
             continue
-        if finite and (s.finite_size() is None or s.finite_size() > 4):
+        if finite and (s.finite_size() is None or s.finite_size() > (3 if _BIAS[0] else 4)):
             continue
         specs[names[len(specs)]] = s
     constants = {}
@@ -294,7 +297,9 @@ def build_scheduler(t, fam, specs, constants, points, max_t, use_mra):
         if not use_mra:
             kw["max_t"] = max_t
         if "bo" in fam:
-            kw.update(searcher="bayesopt", search_options=dict(GP_OPTS))
+            kw.update(searcher="bayesopt", search_options=dict(GP_OPTS), searcher_data=t.weighted([(4, "rungs_and_last"), (1, "rungs"), (1, "all")]) if _BIAS[0] else t.choice(["rungs", "all", "rungs_and_last"]))
+            if max_t >= 3 and (_BIAS[0] or t.bool()):
+                kw["grace_period"] = 2
         else:
             kw.update(searcher="random")
         return HyperbandScheduler(cs, **kw)
@@ -349,18 +354,25 @@ def run_history(t, fam, finite):
     want_first = ref_impute(points, specs)
     curve = {}
 
+    gp = "bo" in fam
+    nan_values = gp and (_BIAS[0] or t.chance(1, 3))  # diverged runs report NaN; the model-based searchers document that they skip such values
+
     def result_fn(tid, config, level):
-        return {"loss": curve.setdefault((tid, level), t.float(0.0, 1.0))}
+        if (tid, level) not in curve:
+            diverged = any(v != v for (tid_, lv_), v in curve.items() if tid_ == tid and lv_ < level)  # a diverged run stays diverged
+            curve[(tid, level)] = float("nan") if nan_values and (diverged or t.chance(1, 3 if _BIAS[0] else 5)) else t.float(0.0, 1.0)
+        return {"loss": curve[(tid, level)]}
 
     def cap(config):
         return int(config["epochs"]) if use_mra and "epochs" in config else max_t
 
-    gp = "bo" in fam
     d = dp.ProtocolDriver(
         sched, t, result_fn, level_cap_fn=cap, n_workers=t.int(1, 4), max_trials=(space_size + 3) if (finite and space_size) else t.int(3, 10),
-        max_steps=30 if gp else (120 if finite else 60), checkpointing=True, allow_fail=t.chance(1, 3) and fam not in ("dehb", "sync-hb"), time_keeper=tk,
+        max_steps=(70 if _BIAS[0] else 30) if gp else (120 if finite else 60), checkpointing=True, allow_fail=t.chance(1, 3) and fam not in ("dehb", "sync-hb"), time_keeper=tk, early_complete=_BIAS[0],
     )
     labels = {fam, "finite" if finite else "mixed"}
+    if nan_values:
+        labels.add("nan-metric-values")
     started = []  # (trial, config, match string)
     seen_ms = {}
     n_first = 0
@@ -420,6 +432,19 @@ def run_history(t, fam, finite):
             # (user-supplied initial configurations which are distinct are all suggested, even if they
             # agree in the first seven digits of every value)
             if ms in seen_ms:
+                prev = seen_ms[ms]
+                # values of the earlier trial which the data policy hands to the searcher (FIFO: all; Hyperband 'rungs': rung levels,
+                # max_t and the final result of a completed trial; 'all' / 'rungs_and_last': every value)
+                policy = getattr(inner, "searcher_data", "all")
+                rung_set = set(getattr(inner, "rung_levels", []) or []) | {getattr(inner, "max_t", None)}
+                lv_prev = sorted(lv_ for (tid_, lv_) in curve if tid_ == prev)
+                vals = [
+                    curve[(prev, lv_)] for lv_ in lv_prev
+                    if policy != "rungs" or lv_ in rung_set or (lv_ == lv_prev[-1] and prev in d.completed)
+                ]
+                if gp and prev not in d.running and prev not in d.failed and (not vals or all(v != v for v in vals)) and any(curve[(prev, lv_)] != curve[(prev, lv_)] for lv_ in lv_prev):
+                    # listed finding: the model-based searchers skip NaN values, a trial which only ever reported NaN leaves no trace
+                    raise Violation("repeated-suggestion:trial-with-only-nan-results", f"{where}: {cfg} equals the configuration of trial {prev}, of which only NaN values reached the searcher ({len(vals)} results) and which has ended")
                 raise Violation(
                     f"repeated-suggestion:{fam}",
                     f"{where}: {cfg} equals the configuration of trial {seen_ms[ms]} (state: {'failed' if seen_ms[ms] in d.failed else 'pending/running' if seen_ms[ms] in d.running else 'finished'})",
@@ -473,11 +498,21 @@ def case_modelfree(t):
 
 
 def case_gp(t):
+    _BIAS[0] = False
     fam = t.choice(["fifo-bo", "hb-bo-stopping", "hb-bo-promotion"])
     return run_history(t, fam, t.chance(1, 3))
+
+
+def case_gp_finite(t):
+    _BIAS[0] = True
+    try:
+        return run_history(t, t.weighted([(3, "hb-bo-stopping"), (3, "hb-bo-promotion"), (1, "fifo-bo")]), True)
+    finally:
+        _BIAS[0] = False
 
 
 SUBCHECKS = {
     "model-free": {"fn": case_modelfree, "quick": 30000, "thorough": 500000, "required": ["exhaustion", "initial-point", "failure", "pbt-explore", "grid-enumerated", "dehb", "rea"]},
     "gp": {"fn": case_gp, "quick": 640, "thorough": 10000, "min_per_shard": 10, "required": ["model-based-suggestion", "initial-point"]},
+    "gp-finite": {"fn": case_gp_finite, "quick": 1600, "thorough": 30000, "min_per_shard": 10, "required": ["model-based-suggestion", "exhaustion", "nan-metric-values"]},
 }
